@@ -470,6 +470,51 @@ def help_requests(ctx, K):
     return list(dict.fromkeys(reqs))
 
 
+def trim_requests(ctx, K):
+    """uc_trim (a04410e): `cutstore <size> <hex>` = snprintf into size bytes then uc_trim, for the sizes of cmp[] and vi_msg[]
+    and small ones, on generated valid text long enough to be cut at every offset inside a character; `trim <hex>` on
+    every prefix length of a short mixed string and on arbitrary non-NUL bytes."""
+    r = ctx.rng.fork('trim')
+    reqs = []
+    mixed = 'ab\u00e9\u4e2d\U0001f600x\u0627\U0001d11e_\u200c9'.encode('utf-8')
+    for n in range(len(mixed) + 1):
+        reqs.append('trim ' + vlib.hx(mixed[:n]))
+        for size in (1, 2, 3, 4, 5, 8):
+            reqs.append('cutstore %d %s' % (size, vlib.hx(mixed[n:])))
+    for _ in range(400 if ctx.quick else 4000):
+        t = (r.choice([b'', b'a', b'ab', b'abc']) + G.helper_text(r))
+        reqs.append('cutstore %d %s' % (r.choice([64, 64, K['EXLEN'], K['EXLEN'], K['TAGSZ'], 16, 7]), vlib.hx(t)))
+    for _ in range(100 if ctx.quick else 1000):
+        n = r.choice([0, 1, 2, 3, 5, 40, 63, 64, 300])
+        pool = r.choice([[0x61, 0x20, 0xc3, 0xa9, 0x80, 0xf0, 0x9f, 0x5f, 0x2e], list(range(1, 256)), [0xe4, 0xb8, 0xad, 0x41], [0xf0, 0x9d, 0x84, 0x9e, 0xbf]])
+        reqs.append('trim ' + vlib.hx(bytes(r.choice(pool) for _ in range(n))))
+    return list(dict.fromkeys(reqs))
+
+
+def trim_oracle(q, a):
+    """The property on the implementation's answer alone: a prefix of what was stored, and when the text was valid UTF-8
+    the answer is valid UTF-8 too and less than one character shorter than what was stored."""
+    w = q.split(' ')
+    src = vlib.unhx(w[-1])
+    stored = src[:int(w[1]) - 1] if w[0] == 'cutstore' else src
+    got = vlib.unhx(a)
+    if not stored.startswith(got):
+        return 'uc_trim left bytes that are not a prefix of the string'
+    try:
+        src.decode('utf-8')
+    except UnicodeDecodeError:
+        return None
+    if w[0] == 'trim':
+        return None
+    try:
+        got.decode('utf-8')
+    except UnicodeDecodeError:
+        return 'a cut of valid UTF-8 text ends inside a character after uc_trim'
+    if len(stored) - len(got) > 3:
+        return 'uc_trim dropped %d bytes of valid text (more than an incomplete character)' % (len(stored) - len(got))
+    return None
+
+
 def ai_case(r, K):
     """One session of led_input: k leading blanks in the prefix (+ 'x'), then lines of ^T / ^D, typed blanks and
     an optional letter.  Returns (probe request, model request, meta)."""
@@ -527,7 +572,7 @@ def ai_expected(meta, lens):
 
 def decode_help(q):
     w = q.split(' ')
-    return repr(vlib.unhx(w[-1]))[:400] if w[0] == 'help' else q[:300]
+    return repr(vlib.unhx(w[-1]))[:400] if w[0] in ('help', 'trim', 'cutstore') else q[:300]
 
 
 def run_help_part(ctx, K):
@@ -540,13 +585,14 @@ def run_help_part(ctx, K):
         rp = json.load(open(ctx.replay))
         reqs = [x for x in rp.get('input', []) if isinstance(x, str) and x.split(' ')[0] == 'help']
         ais = []
-        if not reqs:
+        if not [x for x in rp.get('input', []) if isinstance(x, str) and x.split(' ')[0] in ('help', 'trim', 'cutstore')]:
             return
     else:
         reqs = help_requests(ctx, K)
         r = ctx.rng.fork('ai')
         ais = [ai_case(r.fork(str(i)), K) for i in range(300 if ctx.quick else 3000)]
-    todo = reqs + [a[0] for a in ais]
+    trims = [x for x in rp.get('input', []) if isinstance(x, str) and x.split(' ')[0] in ('trim', 'cutstore')] if ctx.replay else trim_requests(ctx, K)
+    todo = reqs + [a[0] for a in ais] + trims
     out_a = run_probe(res, probe_asan, 'probe_help (ASan/UBSan)', todo, PROBE_ENV, decode_help)      # first: its report names the buffer
     out_c = run_probe(res, probe, 'probe_help', todo, PROBE_ENV, decode_help)
     for q, a, b in zip(todo, out_c, out_a):
@@ -555,7 +601,7 @@ def run_help_part(ctx, K):
             break
     out_m = None
     if model:
-        rc, out_m, err = vlib.run_lines(model, reqs + [a[1] for a in ais], timeout=1500)
+        rc, out_m, err = vlib.run_lines(model, reqs + [a[1] for a in ais] + trims, timeout=1500)
         if rc != 0 or len(out_m) != len(todo):
             res.disagree({'what': 'model driver: rc=%d, %d answers for %d requests' % (rc, len(out_m), len(todo)), 'stderr': err[-1000:]})
             out_m = None
@@ -617,6 +663,25 @@ def run_help_part(ctx, K):
                 nd += 1
                 res.disagree({'what': 'model and implementation differ (led_input auto-indent)', 'input': [pq], 'model_request': mq, 'implementation': got[:700],
                               'model': (exp if exp is not None else out_m[i])[:700]})
+    # (c) uc_trim
+    for j, q in enumerate(trims):
+        i = len(reqs) + len(ais) + j
+        a = out_c[i] if i < len(out_c) else 'SKIPPED'
+        res.evaluations += 1
+        res.count('probe ' + q.split(' ')[0])
+        if a in ('CRASH', 'SKIPPED'):
+            continue
+        if a == 'nofn':
+            res.disagree({'what': 'uc.c has no uc_trim(): the strings cut by snprintf into cmp[] / vi_msg[] are not brought back to a character boundary (a04410e reverted?)', 'input': [q]})
+            break
+        bad = trim_oracle(q, a)
+        if bad:
+            res.violation({'what': bad, 'input': [q], 'decoded': decode_help(q), 'expected': 'the longest prefix of whole characters', 'observed': a[:700]})
+        if len(q) > 40:
+            res.nontriv(q[:120])
+        if out_m is not None and a != out_m[i].strip():
+            nd += 1
+            res.disagree({'what': 'model and implementation differ (uc_trim)', 'input': [q], 'decoded': decode_help(q), 'implementation': a[:700], 'model': out_m[i][:700]})
     res.extra['help_probe_disagreements'] = nd
     for q, a in list(zip(todo, out_c))[::max(1, len(todo) // 3)][:3]:
         res.sample({'request': q[:200], 'answer': a[:200]})
